@@ -55,7 +55,49 @@ pub fn gen_trace(r: &mut Rng, nconn: usize, base_id: u64) -> (Vec<Conn>, Vec<TFr
         })
         .collect();
     let mix = *r.pick(&[Mix::Riffle, Mix::RoundRobin, Mix::Bursts]);
-    let trace = scenario::interleave(r, &conns, mix);
+    let mut trace = scenario::interleave(r, &conns, mix);
+    // other traffic of the same hosts in between: UDP and ICMP datagrams, TCP segments cut short
+    // inside their header.  The sequential analyzers answer such a frame with an error and go on;
+    // a pool has to go on as well (frames marked conn = usize::MAX may be refused at dispatch).
+    if r.chance(2, 3) {
+        let n = 1 + trace.len() / 12;
+        for k in 0..n {
+            let c = &conns[r.usize(conns.len())];
+            let from_client = r.chance(1, 2);
+            let mut ip = c.ep.ip_hdr(from_client, 64);
+            let (sp, dp) = if from_client { (c.ep.cport, c.ep.sport) } else { (c.ep.sport, c.ep.cport) };
+            let mut l4: Vec<u8> = Vec::new();
+            l4.extend_from_slice(&sp.to_be_bytes());
+            l4.extend_from_slice(&dp.to_be_bytes());
+            let kind = r.below(3);
+            match kind {
+                0 => {
+                    // UDP: length, checksum, payload
+                    l4.extend_from_slice(&[0, 20, 0, 0]);
+                    l4.extend_from_slice(&(base_id + k as u64).to_be_bytes());
+                    l4.extend_from_slice(&[0x55; 4]);
+                }
+                1 => {
+                    // ICMP echo (type/code live where the source port would be)
+                    l4 = vec![8, 0, 0, 0];
+                    l4.extend_from_slice(&(base_id + k as u64).to_be_bytes());
+                }
+                _ => {
+                    // TCP header cut after 12 of its 20 octets
+                    l4.extend_from_slice(&((base_id as u32).wrapping_add(k as u32)).to_be_bytes());
+                    l4.extend_from_slice(&[0, 0, 0, 1]);
+                }
+            }
+            match &mut ip {
+                crate::pkt::Ip::V4(h) => h.proto = [17u8, 1, 6][kind as usize],
+                crate::pkt::Ip::V6(h) => h.next = [17u8, 58, 6][kind as usize],
+            }
+            let is_v4 = ip.is_v4();
+            let f = crate::pkt::frame(crate::pkt::Link::Ethernet, &ip.bytes(&l4), is_v4);
+            let pos = r.usize(trace.len() + 1);
+            trace.insert(pos, TFrame { at_ms: scenario::T0, conn: usize::MAX, frame: f });
+        }
+    }
     // all frames of a trace must be distinct (they are identified by content in the event log)
     let mut seen = std::collections::HashSet::new();
     let trace: Vec<TFrame> = trace.into_iter().filter(|t| seen.insert(pool::fnv(&t.frame))).collect();
@@ -106,23 +148,34 @@ pub fn parallel_with(kind: PoolKind, cfg: &PoolCfg, trace: &[TFrame], lockstep: 
     let mut all_queued = true;
     let mut queued = 0u64;
     let mut drained = true;
+    let mut deficit = 0u64;
     for t in trace {
         if lockstep {
             huginn_net_tcp::verif_hooks::clock::set_ms(t.at_ms);
         }
         if h.dispatch(t.frame.clone()) {
             queued += 1;
-            if lockstep && h.wait_drain(queued, Duration::from_secs(30)) == pool::Drain::Stalled {
-                drained = false;
-                break;
+            if lockstep && deficit < 3 {
+                match h.wait_drain(queued - deficit, Duration::from_secs(30)) {
+                    pool::Drain::Complete => {}
+                    // a frame reported as queued never reached the processed point although the
+                    // pool is idle: it is lost (the comparison shows it).  Later frames are
+                    // awaited relative to what can still arrive; after three losses the rest of
+                    // the trace is dispatched without waiting (each loss costs 2 s to establish)
+                    pool::Drain::IdleShort => deficit = queued - pool::log().processed.load(std::sync::atomic::Ordering::SeqCst).min(queued),
+                    pool::Drain::Stalled => {
+                        drained = false;
+                        break;
+                    }
+                }
             }
-        } else {
+        } else if t.conn != usize::MAX {
             all_queued = false;
         }
     }
     // an idle pool that processed fewer frames than were queued counts as drained: the comparison
     // below then shows what is missing
-    if drained && h.wait_drain(queued, Duration::from_secs(30)) == pool::Drain::Stalled {
+    if drained && h.wait_drain(queued - deficit.min(queued), Duration::from_secs(30)) == pool::Drain::Stalled {
         drained = false;
     }
     let results = h.drain_results();
@@ -351,7 +404,7 @@ pub fn spec() -> PropSpec {
         id: "C10",
         run,
         shards: super::shards_8_16,
-        rule: "seeded traces of 10..200 complete connections (handshakes with timestamps, multi-segment ClientHellos, HTTP/1.x and HTTP/2 exchanges in both directions, garbage) are analysed sequentially and by the TCP, HTTP and TLS worker pools under varied worker counts (1..16), batch sizes {1,2,32}, timeouts {1,10} ms and seeded yield/sleep/spin perturbation at the hook points; after logical drain the result multisets and the per-connection (TCP: per-sender) orders are compared; a lock-step mode compares uptime estimates through the TCP pool; the parallel analyze_pcap entry of the TCP analyzer is compared with its sequential one; a bucket is a distinct (pool, mode, workers, batch, timeout) configuration or a distinct result-arrival order observed",
+        rule: "seeded traces of 10..200 complete connections (handshakes with timestamps, multi-segment ClientHellos, HTTP/1.x and HTTP/2 exchanges in both directions, garbage, with UDP / ICMP datagrams and truncated TCP segments of the same hosts in between) are analysed sequentially and by the TCP, HTTP and TLS worker pools under varied worker counts (1..16), batch sizes {1,2,32}, timeouts {1,10} ms and seeded yield/sleep/spin perturbation at the hook points; after logical drain the result multisets and the per-connection (TCP: per-sender) orders are compared; a lock-step mode compares uptime estimates through the TCP pool; the parallel analyze_pcap entry of the TCP analyzer is compared with its sequential one; a bucket is a distinct (pool, mode, workers, batch, timeout) configuration or a distinct result-arrival order observed",
         assumptions: &[
             "queue size exceeds the trace length (free-running), or frames are dispatched one at a time and awaited at the WorkerProcessed point (lock-step, also with queues of 2..6 on pools built by the analyzers' with_config + init_pool, connection capacity 4096); a run in which any dispatch is not queued, or which does not drain within 30 s, is inconclusive",
             "free-running runs freeze the virtual clock (uptime estimation then yields nothing in both modes); lock-step runs advance it per frame",
